@@ -141,6 +141,15 @@ func c10One(r *core.Run, sc scn, seed int64, f *fault) {
 		fail("error-does-not-match-context:"+f.Kind, fmt.Sprintf("Do returned %q, which is neither context.Canceled nor DeadlineExceeded", firstLineOf(o.Err.Error())))
 	}
 	if !cl.IsClosed() || !conn.Closed() {
+		evs := conn.Events()
+		tail := ""
+		for i := len(evs) - 1; i >= 0 && i > len(evs)-14; i-- {
+			tail = fmt.Sprintf("%s(%s n=%d err=%s) ", evs[i].Op, evs[i].Gate, evs[i].N, evs[i].Err) + tail
+		}
+		desc["last_conn_events"] = tail
+		desc["hooks"] = o.Hooks
+		desc["gates"] = o.Gates
+		desc["error"] = o.Err.Error()
 		fail("connection-not-closed:"+f.Kind, fmt.Sprintf("after cancellation the client is closed=%v, connection closed=%v", cl.IsClosed(), conn.Closed()))
 	}
 	if n := conn.CloseCalls(); n > 1 {
